@@ -77,6 +77,22 @@ func fieldsInCone(v ssa.Value, seen map[ssa.Value]bool, out map[string]bool, dep
 			if st, ok := r.(*ssa.Store); ok && st.Addr == ssa.Value(x) {
 				rec(st.Val)
 			}
+			// elements / fields of the local written through an address derived from it (variadic argument
+			// arrays, composite literals)
+			if ia, ok := r.(*ssa.IndexAddr); ok {
+				for _, r2 := range *ia.Referrers() {
+					if st, ok := r2.(*ssa.Store); ok && st.Addr == ssa.Value(ia) {
+						rec(st.Val)
+					}
+				}
+			}
+			if fa, ok := r.(*ssa.FieldAddr); ok {
+				for _, r2 := range *fa.Referrers() {
+					if st, ok := r2.(*ssa.Store); ok && st.Addr == ssa.Value(fa) {
+						rec(st.Val)
+					}
+				}
+			}
 		}
 	}
 }
